@@ -208,7 +208,7 @@ impl Add for Value {
             (Value::DateTime(ldt), Value::Duration(rd)) => Ok(Value::DateTime(ldt.add(rd))),
             (Value::Duration(ld), Value::DateTime(rdt)) => Ok(Value::DateTime(rdt.add(ld))),
             (Value::Duration(ld), Value::Duration(rd)) => Ok(Value::Duration(ld.add(rd))),
-            (Value::Float(lf), Value::Float(rf)) => Ok(Value::Float(lf + rf)),
+            (Value::Float(lf), Value::Float(rf)) => Ok(Value::from_float(lf.0 + rf.0)),
             // exact while the result fits an i64, a float beyond that (never a wrapped value)
             (Value::Int(li), Value::Int(ri)) => Ok(match li.checked_add(ri) {
                 Some(result) => Value::Int(result),
@@ -227,7 +227,7 @@ impl Sub for Value {
             (Value::DateTime(ldt), Value::Duration(rf)) => Ok(Value::DateTime(ldt.sub(rf))),
             (Value::DateTime(ldt), Value::DateTime(rdt)) => Ok(Value::Duration(ldt.sub(rdt))),
             (Value::Duration(ld), Value::Duration(rd)) => Ok(Value::Duration(ld.sub(rd))),
-            (Value::Float(lf), Value::Float(rf)) => Ok(Value::Float(lf - rf)),
+            (Value::Float(lf), Value::Float(rf)) => Ok(Value::from_float(lf.0 - rf.0)),
             // exact while the result fits an i64, a float beyond that (never a wrapped value)
             (Value::Int(li), Value::Int(ri)) => Ok(match li.checked_sub(ri) {
                 Some(result) => Value::Int(result),
@@ -245,7 +245,7 @@ impl Mul for Value {
         match (self, rhs) {
             (Value::Duration(ld), Value::Int(ri)) => Ok(Value::Duration(ld.mul(ri as i32))),
             (Value::Int(li), Value::Duration(rd)) => Ok(Value::Duration(rd.mul(li as i32))),
-            (Value::Float(lf), Value::Float(rf)) => Ok(Value::Float(lf * rf)),
+            (Value::Float(lf), Value::Float(rf)) => Ok(Value::from_float(lf.0 * rf.0)),
             // exact while the result fits an i64, a float beyond that (never a wrapped value)
             (Value::Int(li), Value::Int(ri)) => Ok(match li.checked_mul(ri) {
                 Some(result) => Value::Int(result),
